@@ -199,10 +199,9 @@ def getStep (q : Quirks) (toks : List String) (impl : String) : Res :=
   let key := if hasLocal then lo.o.key else ro.o.key
   let st : Hg.Store Bytes Item := if hasLocal then [(key, lo)] else []
   -- the getters decode what they return: content that does not decode is an error (the empty receipt list of a block
-  -- without transactions is the empty byte string, which `DecodeReceipts` refuses: such a lookup always fails)
+  -- without transactions is the empty byte string; since 308affd `PortalReceipts.UnmarshalSSZ` decodes it)
   let dec : Item → Option Nat := fun x => match x.o.c with
     | .undecodable => none
-    | .receipts _ true => none
     | _ => some x.idx
   let r := Hg.getter (itemValidate q) dec st (fun _ => if hasRemote then some ro else none) key
   let ret := match r.2.2.2, r.2.2.1 with
